@@ -13,8 +13,8 @@ counter `used`.  One `step` = one clock cycle; the environment attempts `alloc`,
   entry with the value of the out-of-range `Array` read (0 in pysim).
 * `free(ident)` (:157-163) searches the position of `ident` (last match wins, 0 when there is none)
   and calls `free_idx`.  Hence the adapters of `free` and `free_idx` both call the exclusive method
-  `free_idx`: they conflict, and no priority is declared.  In the current elaboration `free` wins;
-  the correspondence never attempts both in one cycle.
+  `free_idx`: they conflict, and no priority is declared.  `arbitrate`/`stepP` model the scheduler's
+  choice; which of the two has priority is read off the elaborated design by the harness.
 * `used := used + alloc.run - free_idx.run` (:143-144), truncated to the width of `range(entries+1)`.
 * `clear` (:169-173) comes last in `elaborate`: its `sync` assignments win.
 -/
@@ -87,6 +87,18 @@ def step (n : Nat) (s : State) (i : In) : State × Out :=
          free := frun, freeIdx := xrun
          order := if i.order then some (s.used, s.order) else none
          clear := i.clear })
+
+/-- The adapters of `free` and `free_idx` both call the exclusive method `free_idx` (:163), so the
+    scheduler grants at most one of them per cycle; both are always ready, so the one with the higher
+    (static, elaboration-defined) priority wins.  `freeFirst` = `free` has priority. -/
+def arbitrate (freeFirst : Bool) (i : In) : In :=
+  if i.free.isSome && i.freeIdx.isSome then
+    (if freeFirst then { i with freeIdx := none } else { i with free := none })
+  else i
+
+/-- one cycle including the scheduler's choice between `free` and `free_idx` -/
+def stepP (n : Nat) (freeFirst : Bool) (s : State) (i : In) : State × Out :=
+  step n s (arbitrate freeFirst i)
 
 def run (n : Nat) (s : State) : List In → State × List Out
   | [] => (s, [])
